@@ -202,7 +202,9 @@ func (srv *Server) handleConn(conn net.Conn) {
 	logger.Info("New connection")
 	var tlsState *tls.ConnectionState
 	if tcon, ok := conn.(*tls.Conn); ok {
-		if err := tcon.Handshake(); err != nil {
+		// The handshake is bound to the receive context: a peer that stalls in it
+		// must not keep Shutdown waiting for this connection forever.
+		if err := tcon.HandshakeContext(srv.recvCtx); err != nil {
 			_ = tcon.Close()
 			logger.Warn("TLS handshake failure. Closing client connection", "err", err)
 			return
